@@ -78,6 +78,8 @@ pub enum FinalReply {
     /// key+2 with as many high-order zero bytes as make the whole TSRequest exactly n bytes long, correctly sealed
     /// (a wrong value whose message ends exactly on a transport chunk boundary)
     WrongPaddedTo(usize),
+    /// key + 2, correctly sealed, in a TSRequest announcing this CredSSP version
+    WrongWithVersion(u64),
     /// nothing is sent, the connection is closed
     Eof,
     /// these bytes, as they are (e.g. the final reply recorded from an earlier session)
@@ -124,6 +126,14 @@ pub struct ServerParams {
     /// Some(v): the share id field of the server's four finalization PDUs holds v instead of the id of the demand-active
     /// (Some(1) is special: the id of the PREVIOUS activation); the client takes its share id from the demand-active only
     pub finalization_share_id: Option<u32>,
+    /// a CredSSP server that does NOT know the account's password: it cannot verify the AUTHENTICATE message nor recover
+    /// the session key; the only thing it can try is to take the 16 bytes of the EncryptedRandomSessionKey field for the
+    /// session key itself, and seal its (otherwise honest) final reply with keys derived from them
+    pub passwordless: bool,
+    /// SC_SECURITY carries the optional serverRandomLen / serverCertLen fields, both 0 (16-byte body, MS-RDPBCGR 2.2.1.4.3)
+    pub sc_security_optional_lengths: bool,
+    /// flagsHi of the basic security header of the licensing PDU (without SEC_FLAGSHI_VALID it may hold anything)
+    pub licence_flags_hi: u16,
     /// TLS peer only: every server message (TPKT / fast-path frames, not the CredSSP messages) is cut into TLS records of at most this many plaintext bytes (0 = one
     /// record per message), so that record boundaries fall inside frame headers and bodies
     pub tls_record_cap: usize,
@@ -169,6 +179,9 @@ impl Default for ServerParams {
             sdi_priority: 0x70,
             reuse_share_id: false,
             finalization_share_id: None,
+            passwordless: false,
+            sc_security_optional_lengths: false,
+            licence_flags_hi: 0,
             tls_record_cap: 0,
         }
     }
@@ -182,6 +195,10 @@ pub enum DevKind {
     Truncate(usize),
     Extend(Vec<u8>),
     Replace(Vec<u8>),
+    /// these bytes (whole frames) are sent in front of the honest message
+    Prepend(Vec<u8>),
+    /// this frame, `.1` times, is sent in front of the honest message (expanded by the peer when it sends)
+    PrependRepeated(Vec<u8>, usize),
     /// replace only the user payload of the frame (keeps the TPKT/X.224/MCS framing consistent)
     ReplaceInner(Vec<u8>),
 }
@@ -236,6 +253,21 @@ pub fn apply_dev(bytes: &mut Vec<u8>, k: &DevKind) -> bool {
         DevKind::Replace(r) => {
             *bytes = r.clone();
             true
+        }
+        DevKind::Prepend(r) => {
+            let mut v = r.clone();
+            v.extend_from_slice(bytes);
+            *bytes = v;
+            !r.is_empty()
+        }
+        DevKind::PrependRepeated(frame, n) => {
+            let mut v = Vec::with_capacity(frame.len() * n + bytes.len());
+            for _ in 0..*n {
+                v.extend_from_slice(frame);
+            }
+            v.extend_from_slice(bytes);
+            *bytes = v;
+            *n > 0 && !frame.is_empty()
         }
         DevKind::ReplaceInner(_) => false, // handled by the sender, which knows the framing
     }
@@ -602,7 +634,11 @@ impl RefServer {
             if self.p.unknown_block && pos == 1 {
                 blocks.extend(gcc::sc_block_bytes(&gcc::ScBlock::Unknown { ty: 0x0C08, body: vec![0; 8] }));
             }
-            blocks.extend(gcc::sc_block_bytes(&three[*i]));
+            if *i == 1 && self.p.sc_security_optional_lengths {
+                blocks.extend(gcc::sc_block_bytes(&gcc::ScBlock::Unknown { ty: 0x0C02, body: vec![0; 16] }));
+            } else {
+                blocks.extend(gcc::sc_block_bytes(&three[*i]));
+            }
         }
         let ccr = gcc::conference_create_response(&blocks, 31219, 1);
         framing::tpkt(&framing::x224_dt(&mcs::connect_response(0, 0, &mcs::DEFAULT_RESPONSE_PARAMS, &ccr, self.p.ber_wide)))
@@ -774,6 +810,33 @@ impl RefServer {
                     _ => return self.fail("TSRequest(authenticate): negoToken and pubKeyAuth required".into()),
                 };
                 self.client_pubkeyauth = pka.clone();
+                if self.p.passwordless {
+                    let field = match rn::parse_authenticate(&tok) {
+                        Ok(a) => a.enc_key,
+                        Err(e) => return self.fail(format!("NTLM AUTHENTICATE does not parse: {}", e)),
+                    };
+                    if field.len() != 16 {
+                        return self.fail(format!("passwordless server: EncryptedRandomSessionKey of {} bytes", field.len()));
+                    }
+                    let mut k = [0u8; 16];
+                    k.copy_from_slice(&field);
+                    self.exported_key = Some(k);
+                    let mut c2s = SealCtx::new(&k, true);
+                    let mut s2c = SealCtx::new(&k, false);
+                    if self.p.ntlm.flags & vref::ntlm::F_SEAL == 0 {
+                        c2s.confidential = false;
+                        s2c.confidential = false;
+                    }
+                    self.c2s = Some(c2s);
+                    self.s2c = Some(s2c);
+                    let reply = self.final_reply_bytes();
+                    self.final_reply_sent = true;
+                    if let Some(r) = reply {
+                        self.emit("cssp_pubkey", r, &mut out);
+                        self.phase = Phase::CsspCredentials;
+                    }
+                    return Action { out, start_tls: false, close: false };
+                }
                 let hash = rn::nt_hash(&self.p.acct_password);
                 let ok = match rn::verify_authenticate(&self.negotiate, &self.challenge, &tok, &self.p.ntlm, &self.p.acct_user, &self.p.acct_domain, &hash) {
                     Ok(ok) => ok,
@@ -876,7 +939,9 @@ impl RefServer {
                 if unit.len() < 4 || unit[3] >> 2 != 25 {
                     return self.fail("expected send-data request carrying client info".into());
                 }
-                let lic = self.sdi(&sec::licence_pdu_flags(&self.p.licence, self.p.preamble_flags, self.p.licence_sec_flags));
+                let mut lic_pdu = sec::licence_pdu_flags(&self.p.licence, self.p.preamble_flags, self.p.licence_sec_flags);
+                lic_pdu[2..4].copy_from_slice(&self.p.licence_flags_hi.to_le_bytes());
+                let lic = self.sdi(&lic_pdu);
                 self.emit("licence", lic, &mut out);
                 self.phase = if self.p.manual { Phase::Manual } else { Phase::SendDemandActive };
             }
@@ -1093,6 +1158,11 @@ impl RefServer {
             }
             FinalReply::Version(v) => {
                 let sealed = s2c.wrap(&honest_plain);
+                ts_request(v, None, None, Some(&sealed))
+            }
+            FinalReply::WrongWithVersion(v) => {
+                let wrong = le_add(&key, 2);
+                let sealed = s2c.wrap(&wrong);
                 ts_request(v, None, None, Some(&sealed))
             }
             FinalReply::ZeroExtended(n) => {
